@@ -2174,6 +2174,8 @@ def run(ctx):
     # ... and where a length-delimited body ends (the overrun cut needs a read that can see past the body)
     c08.d3_length(RemapCtx(ctx, {'C08-D3': 'C04-D2'}))
     c08.d2_interim(RemapCtx(ctx, {'C08-D2': 'C04-D7'}))
+    from .common import revisit_lookup_rule
+    revisit_lookup_rule(ctx, 'C04-D6')
     c08.d6_read_awaited(RemapCtx(ctx, {'C08-D6': 'C04-D2'}), which=('wpull.protocol.http.client:Session.download',))
     # a revisit record replaces the response block by its header: the lookup that decides it must compare URL *and* digest
     from .common import sql_boolop_lint
